@@ -21,6 +21,7 @@ META = {
     'technique': 'static analysis: attribute-existence check against foreign class universes (dir / source ast), table-driven '
                  'state coverage, def-use pairing of keyword and attribute, guard facts for may-raise sites',
 }
+META['text'] += ' (b, refined) what a printer prints depends on the state that determines equality of its type - read in the printer or, through helpers and field tables, visible in the interpreted result and path conditions; optional state (tzinfo, fold) is omitted only on paths that established it is None / 0; a pytz zone is printed by name only on paths that established that this expression equals the value.'
 
 STATE = {
     'datetime': {'year', 'month', 'day', 'hour', 'minute', 'second', 'microsecond', 'tzinfo', 'fold'},
